@@ -46,10 +46,10 @@ type Object struct {
 	keys  []PropKey
 	props map[PropKey]*Property
 
-	fn      *FuncData         // callable
-	prim    Value             // primitive wrapper value
+	fn      *FuncData           // callable
+	prim    Value               // primitive wrapper value
 	argMap  map[string]*Binding // mapped arguments: index -> parameter binding
-	errProt string            // intrinsic error prototype marker ("TypeError" …) for rendering
+	errProt string              // intrinsic error prototype marker ("TypeError" …) for rendering
 }
 
 type FuncKind uint8
@@ -64,15 +64,16 @@ const (
 )
 
 type FuncData struct {
-	kind    FuncKind
-	node    *Node // KFunc
-	env     *Env
-	strict  bool
-	home    *Object
-	isCtor  bool
-	native  func(it *Interp, this Value, args []Value, newTarget *Object) Value
-	name    string
-	classNd *Node // for default constructors
+	kind      FuncKind
+	node      *Node // KFunc
+	env       *Env
+	strict    bool
+	home      *Object
+	isCtor    bool
+	native    func(it *Interp, this Value, args []Value, newTarget *Object) Value
+	name      string
+	classNd   *Node // for default constructors
+	selfNamed bool  // created by a named function expression (its name is bound in an own outer environment)
 }
 
 // Thrown is the panic payload of a JavaScript throw.
@@ -203,10 +204,10 @@ func (o *Object) ownKeys() []PropKey {
 // defineOwn implements ValidateAndApplyPropertyDescriptor for the cases the subset needs, plus the array length exotic.
 // desc fields set via has* flags.
 type PropDesc struct {
-	value                                    Value
-	get, set                                 *Object
-	hasValue, hasGet, hasSet                 bool
-	writable, enumerable, configurable       bool
+	value                                       Value
+	get, set                                    *Object
+	hasValue, hasGet, hasSet                    bool
+	writable, enumerable, configurable          bool
 	hasWritable, hasEnumerable, hasConfigurable bool
 }
 
